@@ -47,6 +47,7 @@ type Run struct {
 	Funcs      map[string]bool // functions analysed
 	start      time.Time
 	cfgTag     string
+	alias      map[string]string
 }
 
 func NewRun(property, tier, level string) *Run {
@@ -66,7 +67,31 @@ func (r *Run) Rule(name, statement string, floor int) {
 	}
 }
 
+// WithAlias runs f with obligations reported under rule `from` recorded under rule `to`: a property
+// re-decides a rule of another property whose failure it suffers from directly.
+func (r *Run) WithAlias(from, to string, f func()) {
+	if r.alias == nil {
+		r.alias = map[string]string{}
+	}
+	old, had := r.alias[from]
+	r.alias[from] = to
+	defer func() {
+		if had {
+			r.alias[from] = old
+		} else {
+			delete(r.alias, from)
+		}
+	}()
+	f()
+}
+
 func (r *Run) add(o Obligation) {
+	if to, ok := r.alias[o.Rule]; ok {
+		if to == "-" {
+			return // decided by the owning property only
+		}
+		o.Rule = to
+	}
 	if r.cfgTag != "" && r.cfgTag != "linux/amd64" {
 		// Same construct under another build configuration: keep the key stable, mention config in seed.
 		if o.Seed != "" {
